@@ -6,7 +6,17 @@ impl Vm {
   /// This acts as a hook for native functions to execute laythe function
   pub(super) unsafe fn run_fun(&mut self, callable: Value, args: &[Value]) -> Call { unsafe {
     let mut fiber = self.fiber;
-    fiber.ensure_stack(self, args.len() + 1);
+
+    // growing the stack can collect, the callable and the arguments may be
+    // held by nothing but the calling native
+    if !fiber.has_stack(args.len() + 1) {
+      self.push_root(callable);
+      for arg in args {
+        self.push_root(*arg);
+      }
+      fiber.ensure_stack(self, args.len() + 1);
+      self.pop_roots(args.len() + 1);
+    }
 
     fiber.push(callable);
     for arg in args {
@@ -37,7 +47,18 @@ impl Vm {
   pub(super) unsafe fn run_method(&mut self, this: Value, method: Value, args: &[Value]) -> Call { unsafe {
     let mut fiber = self.fiber;
 
-    fiber.ensure_stack(self, args.len() + 1);
+    // growing the stack can collect, the receiver, the method and the arguments
+    // may be held by nothing but the calling native
+    if !fiber.has_stack(args.len() + 1) {
+      self.push_root(this);
+      self.push_root(method);
+      for arg in args {
+        self.push_root(*arg);
+      }
+      fiber.ensure_stack(self, args.len() + 1);
+      self.pop_roots(args.len() + 2);
+    }
+
     fiber.push(this);
     for arg in args {
       fiber.push(*arg);
